@@ -5,6 +5,6 @@
 cd "$(dirname "$0")"
 export CARGO_NET_OFFLINE=true
 python3 tools/extract.py || true
-(cd lean && for t in $(python3 ../tools/props.py --targets); do lake build $t || echo "setup: lake build $t failed"; done)
+(cd lean && for t in $(python3 ../tools/targets.py); do lake build $t || echo "setup: lake build $t failed"; done)
 (cd harness && cargo build --offline --keep-going || echo "setup: some harness binaries failed to build")
 exit 0
